@@ -60,7 +60,7 @@ impl AppendTextComment {
                 .map(|content| {
                     if content.is_empty() {
                         "".to_owned()
-                    } else if content.contains('\n') {
+                    } else if content.contains('\n') || starts_with_long_bracket(&content) {
                         let mut equal_count = 0;
 
                         let close_comment = loop {
@@ -84,6 +84,14 @@ impl AppendTextComment {
             })
             .clone()
     }
+}
+
+/// Returns true if the text starts with an opening long bracket (`[[`, `[=[`, ...),
+/// which would turn a `--` line comment into a long comment.
+fn starts_with_long_bracket(content: &str) -> bool {
+    content
+        .strip_prefix('[')
+        .is_some_and(|rest| rest.trim_start_matches('=').starts_with('['))
 }
 
 impl Rule for AppendTextComment {
